@@ -4,22 +4,11 @@ import (
 	"errors"
 	"io"
 
+	"github.com/zishang520/engine.io/v2/internal/zzmodels"
 	verif "github.com/zishang520/engine.io/v2/internal/zzverif"
-	wt "github.com/zishang520/webtransport-go"
 )
 
 // ---- environment ----
-
-var sessionCloseCalls int
-
-// In symbolic runs the session's CloseWithError is replaced by this recorder (the
-// Conn under test wraps an in-memory stream and has no QUIC session).
-//
-//verif:model (*github.com/zishang520/webtransport-go.Session).CloseWithError
-func mSessionCloseWithError(s *wt.Session, code wt.SessionErrorCode, msg string) error {
-	sessionCloseCalls++
-	return nil
-}
 
 type fakeTimeoutErr struct{}
 
@@ -105,9 +94,9 @@ func callNextReader(c *Conn) (mt int, r io.Reader, err error, closed bool) {
 			}
 		}()
 	}
-	before := sessionCloseCalls
+	before := zzmodels.SessionCloseCalls
 	mt, r, err = c.NextReader()
-	closed = sessionCloseCalls > before
+	closed = zzmodels.SessionCloseCalls > before
 	return
 }
 
